@@ -4,6 +4,7 @@ import RbV.Lemmas.RankSelectModel
 import RbV.Lemmas.Wavelet
 import RbV.Lemmas.Bytes8
 import RbV.Gen.Dna2Int
+import RbV.Thm.GenSrcRankSelect
 /-!
 # C17 — rank/select and wavelet-matrix queries equal naive counting
 
@@ -213,6 +214,72 @@ example : RbV.Model.Wavelet.rank (fun v => Gen.Dna2Int.table.getD v 0)
     (RbV.Model.Wavelet.build (fun v => Gen.Dna2Int.table.getD v 0) [65, 67, 78, 36, 78, 65]) 78 4 = 2 := by decide
 
 end models
+
+/-! ## rank/select: function bodies translated from the source text (session 4, genbits; docs/notes/GEN.md)
+
+`RbV/Gen/SrcRankSelect.lean` is regenerated from `src/data_structures/rank_select.rs` on every `./check C17`:
+`fn superblocks`, `RankSelect::rank_1`, `RankSelect::rank_0`.  External to rust-bio and therefore *assumed*: the `bv` crate
+(`bits.len()` = number of bits, `bits.get_block(b)` = the byte `blockByte bits b` whose bit `k` is bit `8b+k` of the vector,
+zero beyond the end), `u8::count_ones/count_zeros` (`Rs.countOnes`, `Rs.countZeros 8`) and the `f64` ceiling
+`(len as f64 / 8.0).ceil()` (`CeilOk cd8 len`: it is `⌈len / 8⌉`).  Proofs: `RbV/Thm/GenSrcRankSelect.lean`. -/
+section rankselect_source
+open RbV.Model.RankSelect RbV.Thm.GenSrcRankSelect
+
+/-- **`fn superblocks`, as written, is the model's `superblocks`** (both polarities, every `s > 0`) -/
+theorem superblocks_source_eq_model (bl : List Bool → Nat) (cd8 : Nat → Nat) (t : Bool) (bits : List Bool) (s : Nat)
+    (hs : 0 < s) (hn : bits.length < 2 ^ 60) (hcd : CeilOk cd8 bits.length) :
+    Gen.SrcRankSelect.superblocks (σ := SbRank) blockByte List.length bl cd8 SbRank.first SbRank.some SbRank.val
+        t bits.length s bits
+      = Rs.Res.ok (superblocks t bits.length s (getBlock bits)) :=
+  superblocks_eq_model bl cd8 t bits s hs hn hcd
+
+/-- **`RankSelect::rank_1`, as written, is the model's `rank1`** for every table `sbs1` that covers `i` (`hsb`) and whose
+entry cannot overflow the running `u64` rank (`hbound`) -/
+theorem rank1_source_eq_model (bl : List Bool → Nat) (cd8 : Nat → Nat) (bits : List Bool) (n s k : Nat)
+    (sbs1 sbs0 : List SbRank) (i : Nat) (hs : 0 < s) (hsb : i < n → i / s < sbs1.length)
+    (hbound : i < n → (sbs1.getD (i / s) (.first 0)).val + i + 8 < 2 ^ 64) :
+    Gen.SrcRankSelect.rank1 (σ := SbRank) blockByte List.length bl cd8 SbRank.first SbRank.some SbRank.val
+        n bits sbs1 sbs0 s k i
+      = Rs.Res.ok (rank1 n s (getBlock bits) sbs1 i) :=
+  rank1_eq_model bl cd8 bits n s k sbs1 sbs0 i hs hsb hbound
+
+/-- **`RankSelect::rank_0`, as written** (`self.rank_1(i).map(|r| (i + 1) - r)`) **is the model's `rank0`** -/
+theorem rank0_source_eq_model (bl : List Bool → Nat) (cd8 : Nat → Nat) (bits : List Bool) (n s k : Nat)
+    (sbs1 sbs0 : List SbRank) (i : Nat) (hs : 0 < s) (hsb : i < n → i / s < sbs1.length)
+    (hbound : i < n → (sbs1.getD (i / s) (.first 0)).val + i + 8 < 2 ^ 64)
+    (hle : ∀ r, rank1 n s (getBlock bits) sbs1 i = some r → r ≤ i + 1) :
+    Gen.SrcRankSelect.rank0 (σ := SbRank) blockByte List.length bl cd8 SbRank.first SbRank.some SbRank.val
+        n bits sbs1 sbs0 s k i
+      = Rs.Res.ok (rank0 n s (getBlock bits) sbs1 i) :=
+  rank0_eq_model bl cd8 bits n s k sbs1 sbs0 i hs hsb hbound hle
+
+/-- **generated code = specification**: the translated `superblocks` followed by the translated `rank_1` / `rank_0` return
+the number of 1-bits / 0-bits among positions `0..=i` (`None` exactly for `i ≥ n`), for every bit vector of fewer than 2^60
+bits, every `k ≥ 1`, every `i`; no operation panics -/
+theorem rank_source_exact (bl : List Bool → Nat) (cd8 : Nat → Nat) (bits : List Bool) (k : Nat) (hk : 1 ≤ k)
+    (hn : bits.length < 2 ^ 60) (hcd : CeilOk cd8 bits.length) (sbs0 : List SbRank) (i : Nat) :
+    ∃ sbs1, Gen.SrcRankSelect.superblocks (σ := SbRank) blockByte List.length bl cd8
+          SbRank.first SbRank.some SbRank.val true bits.length (k * 32) bits = Rs.Res.ok sbs1 ∧
+      Gen.SrcRankSelect.rank1 (σ := SbRank) blockByte List.length bl cd8 SbRank.first SbRank.some SbRank.val
+          bits.length bits sbs1 sbs0 (k * 32) k i = Rs.Res.ok (rankRef true bits i) ∧
+      Gen.SrcRankSelect.rank0 (σ := SbRank) blockByte List.length bl cd8 SbRank.first SbRank.some SbRank.val
+          bits.length bits sbs1 sbs0 (k * 32) k i = Rs.Res.ok (rankRef false bits i) :=
+  GenSrcRankSelect.rank_source_exact bl cd8 bits k hk hn hcd sbs0 i
+
+-- non-vacuity on the 40-bit vector `exBits` (two superblocks for k = 1): the translated functions, evaluated
+example : Gen.SrcRankSelect.superblocks (σ := SbRank) blockByte List.length (fun _ => 5) (fun x => (x + 7) / 8)
+    SbRank.first SbRank.some SbRank.val true 40 32 exBits = Rs.Res.ok [SbRank.first 0, SbRank.some 0] := by decide
+example : Gen.SrcRankSelect.rank1 (σ := SbRank) blockByte List.length (fun _ => 5) (fun x => (x + 7) / 8)
+    SbRank.first SbRank.some SbRank.val 40 exBits [SbRank.first 0, SbRank.some 0] [] 32 1 36 = Rs.Res.ok (some 3) := by
+  decide
+example : Gen.SrcRankSelect.rank0 (σ := SbRank) blockByte List.length (fun _ => 5) (fun x => (x + 7) / 8)
+    SbRank.first SbRank.some SbRank.val 40 exBits [SbRank.first 0, SbRank.some 0] [] 32 1 40 = Rs.Res.ok none := by
+  decide
+-- superblock size 0: `n / s` in the capacity computation panics (division by zero)
+example : Gen.SrcRankSelect.superblocks (σ := SbRank) blockByte List.length (fun _ => 5) (fun x => (x + 7) / 8)
+    SbRank.first SbRank.some SbRank.val true 40 0 exBits = Rs.Res.panic := by decide
+
+end rankselect_source
 
 example : selectRef true [false, true, true, false, true] 3 = some 4 := by decide
 example : rankRef false [false, true, true, false, true] 3 = some 2 := by decide
